@@ -36,6 +36,25 @@ REPAIRS = [
 ]
 
 MUTATIONS = {
+    # ---- reverts of the three fix commits: must be caught with the ORIGINAL signatures ----------
+    "c18-revert-f57fa90-frozenset-clear": dict(
+        file=FILE, props=["C18"],
+        expect="draw_screen:non-composite-after-images:AttributeError",
+        old="                self._ti_image_cviews = frozenset()\n            return\n",
+        new="                self._ti_image_cviews.clear()\n            return\n",
+    ),
+    "c18-revert-1f1e502-clear-per-cview": dict(
+        file=FILE, props=["C18"],
+        expect="draw_screen:3-cviews-of-one-widget-gone:missing",
+        old="                if widget not in kitty_widgets:\n                    kitty_widgets.append(widget)\n",
+        new="                kitty_widgets.append(widget)\n",
+    ),
+    "c18-revert-1fd30ed-top-level-image": dict(
+        file=FILE, props=["C18"],
+        expect="draw_screen:top-level-image-canvas:ghost",
+        old="        elif isinstance(screen_canv, UrwidImageCanvas):\n",
+        new="        elif False:\n",
+    ),
     # DESIGN.md must-catch
     'c18-cviews-without-row-col': dict(
         file=FILE, props=["C18"],
@@ -161,6 +180,7 @@ def build(mid: str | None) -> Path:
 
 
 def run(mid: str | None, tier: str = "quick") -> int:
+    """0 = as expected (repaired tree clean / mutant caught with the expected signature)."""
     root = build(mid)
     try:
         env = dict(os.environ, VERIF_REPO=str(root), VERIF_TIER=tier)
@@ -171,12 +191,14 @@ def run(mid: str | None, tier: str = "quick") -> int:
             status = "clean" if p.returncode == 0 else "UNEXPECTED"
         elif MUTATIONS[mid].get("equivalent"):
             status = "equivalent (exit 0 expected)" if p.returncode == 0 else "UNEXPECTED"
+        elif MUTATIONS[mid].get("expect") and p.returncode == 1 and MUTATIONS[mid]["expect"] not in sigs:
+            status = "WRONG-SIGNATURE (expected " + MUTATIONS[mid]["expect"] + ")"
         else:
             status = "caught" if p.returncode == 1 else ("MACHINERY" if p.returncode == 2 else "MISSED")
         print(f"MUT {mid or 'repaired-tree'} C18 exit={p.returncode} {status} {sigs}", flush=True)
         if p.returncode == 2:
             print("\n".join(p.stdout.splitlines()[-15:]))
-        return p.returncode
+        return 0 if status in ("clean", "caught", "equivalent (exit 0 expected)") else 1
     finally:
         shutil.rmtree(root, ignore_errors=True)
 
@@ -184,14 +206,12 @@ def run(mid: str | None, tier: str = "quick") -> int:
 def main() -> int:
     args = sys.argv[1:]
     if args == ["--fixed"]:
-        return 0 if run(None) == 0 else 1
+        return run(None)
     bad = 0
     if not args:
-        bad += run(None) != 0
+        bad += run(None)
     for mid in args or list(MUTATIONS):
-        rc = run(mid)
-        want = 0 if MUTATIONS[mid].get("equivalent") else 1
-        bad += rc != want
+        bad += run(mid)
     return 1 if bad else 0
 
 
